@@ -87,8 +87,50 @@ def run(chk):
                              dict(ctx, threshold=th, cvs=cvs8))
                 elif not np.allclose(kms.centroids_, kref.centroids_, rtol=1e-12, atol=0):
                     chk.fail("centroids after stopping at iteration %d differ from the %d-iteration centroids" % (kstar, kstar), dict(ctx, threshold=th))
+    # ---- exact ties: samples and centroids on an integer grid (all distances exact in binary64), one iteration; a tied sample belongs to the
+    #      FIRST nearest centroid only, every centroid is the mean of its members, the distortion does not rise; and a cap of 0 iterations
+    for i in range(12 if chk.tier == "quick" else 120):
+        K, D = r.choice([2, 3]), r.choice([1, 2])
+        N = r.choice([5, 8, 12])
+        g = gen.nprng(r)
+        X = g.integers(0, 5, size=(N, D)).astype(float)
+        pts = sorted({tuple(p) for p in g.integers(0, 5, size=(4 * K, D)).tolist()})
+        if len(pts) < K:
+            continue
+        init = np.array(pts[:K], dtype=float)
+        g.shuffle(init)
+        # make sure at least one sample is exactly equidistant from its two nearest centroids
+        d0 = ((init[:, None, :] - X[None, :, :]) ** 2).sum(-1)
+        srt = np.sort(d0, axis=0)
+        has_tie = K >= 2 and bool(np.any(srt[0] == srt[1]))
+        if not has_tie:
+            X[0] = (init[0] + init[1]) / 2.0          # midpoints of grid points are exact as well
+            d0 = ((init[:, None, :] - X[None, :, :]) ** 2).sum(-1)
+        chunks = None if i % 2 else gen.random_composition(r, N, 3)
+        ctx = {"init": hexlist(init), "X": hexlist(X), "shape": [K, D], "N": N, "chunks": list(chunks) if chunks else None, "grid": True}
+        km, steps, _ = kt.run_kfit(init, X, chunks, cap=1, cthr=None)
+        lab = np.argmin(d0, axis=0)                    # first nearest centroid
+        chk.count(1, key=("ties", K, D, bool(chunks)))
+        for j in range(K):
+            want = X[lab == j].mean(axis=0) if np.any(lab == j) else init[j]
+            if not np.allclose(np.asarray(km.centroids_)[j], want, rtol=1e-12, atol=1e-12):
+                chk.fail("with a sample exactly equidistant from two centroids, centroid %d is not the mean of the samples whose first nearest centroid it is" % j,
+                         dict(ctx, got=hexlist(km.centroids_), want_row=hexlist(want), labels=lab.tolist()))
+                break
+        j0 = float(d0.min(axis=0).mean())
+        j1 = kt.distortion(np.asarray(km.centroids_, dtype=float), X)[0]
+        if not abs(float(km.average_min_distance) - j0) <= 1e-12 * max(1.0, j0):
+            chk.fail("reported criterion %.12g is not the mean squared distance %.12g to the entering centroids (grid data with ties)" % (float(km.average_min_distance), j0), ctx)
+        if not j1 <= j0 * (1 + 1e-12) + 1e-300:
+            chk.fail("one iteration on grid data with ties raises the mean squared distance %.12g -> %.12g" % (j0, j1), ctx)
+        terms.append(kt.fit_term(init, X, chunks, 1, None, km, steps))
+        # a cap of 0 iterations: initialisation only (a threshold is set so that a cap that is ignored still terminates)
+        k0, s0, _ = kt.run_kfit(init, X, chunks, cap=0, cthr=1e-3)
+        chk.count(1, key=("cap0", bool(chunks)))
+        if s0 != 0 or not np.array_equal(np.asarray(k0.centroids_, dtype=float), init):
+            chk.fail("fit(max_iter=0) performed %d iterations / moved the initial centroids" % s0, dict(ctx, cap=0, got=hexlist(k0.centroids_)))
     bad, info = cq.run_cases("C06", kt.IMPORTS, "kf_case", "kf_check", terms, shard=100)
     chk.correspondence("KMeansMachine.fit (array / seeded random / k-means|| init read back; NumPy and Dask chunks) ~ KF.fit", len(terms), bad, info)
     return chk.finish(
         rule="clustered data K<=4, D<=3, N in 6..30, separations 1/4/10, explicit and seeded string initialisers (k-means++ excluded: fails inside "
-             "dask_ml in this environment), caps 1/2/3/6, NumPy or random Dask row chunks, near-ties excluded by margin; distinct = (traj,K,D,cap,init) | (stop,k*,chunked)")
+             "dask_ml in this environment), caps 0/1/2/3/6, NumPy or random Dask row chunks, near-ties excluded by margin but EXACT ties on integer-grid data included (one iteration); distinct = (traj,K,D,cap,init) | (stop,k*,chunked)")
